@@ -995,7 +995,8 @@ def extra(ctx):
           'ndarray': ['set into an array: ok', 'set into an array: KeyError', 'set into an array: AssertionError',
                       'inplace into an array: ok', 'get into an array: ok', 'get into an array: IndexError',
                       'read returned a new view of an input buffer', 'copying set returned a new array on a new buffer',
-                      'in-place set kept the array object', 'in-place write seen through >= 2 array objects (aliases)']}
+                      'in-place set kept the array object', 'in-place write seen through >= 2 array objects (aliases)',
+                      'multi-key set into an array: ok']}
   missing = [f'{k}/{x}' for k, xs in need.items() for x in xs if not _STATS.get(k, {}).get(x)]
   if missing:
     ctx.notes.append('coverage holes: ' + ', '.join(missing))
@@ -1053,6 +1054,8 @@ def _nd_stats(case, op, o, kind):
   if not any(into_arr(p) for p in ps):
     return
   _stat('ndarray', f"{kind} into an array: {o.get('err') or 'ok'}")
+  if kind == 'set' and isinstance(op.get('keys'), dict) and 'multi' in op['keys'] and len(ps) > 1:
+    _stat('ndarray', f"multi-key set into an array: {o.get('err') or 'ok'}")
   acc = []
   for f in ('res', 'one'):
     if f in o:
